@@ -13,17 +13,17 @@ LOG="$DEST/confirmation.txt"; : > "$LOG"
 rm -rf "$W"; git -C /repo worktree add --detach "$W" >/dev/null 2>&1 || { echo "worktree failed"; exit 2; }
 cd "$W"
 if ! git apply "$DEST/patch.diff" 2>>"$LOG"; then echo "SEED $NAME: patch does not apply to current HEAD" | tee -a "$LOG"; cd /; git -C /repo worktree remove --force "$W"; exit 3; fi
-export CARGO_TARGET_DIR=/tmp/evalseed_target
+export CARGO_TARGET_DIR=/tmp/evalseed_target${EVAL_LANE:-}
 T=$(cargo test --workspace --no-fail-fast --offline 2>&1 | grep -E "^test result" | head -1)
 echo "repo tests with change: $T" | tee -a "$LOG"
 B=$(cargo build --offline --features "verif_hooks executor block_on signals stream futures-io" 2>&1 | grep -cE "^error")
 echo "build with all features + hooks: errors=$B" | tee -a "$LOG"
 if [ -f "$DEST/demo.rs" ] && grep -q "^fn main" "$DEST/demo.rs"; then
   cp "$DEST/demo.rs" examples/seed_demo.rs
-  DW=$(timeout 300 cargo run --offline --features "executor block_on signals stream futures-io" --example seed_demo >/tmp/evalseed_demo.txt 2>&1; echo "exit=$?"; tail -2 /tmp/evalseed_demo.txt | tr '\n' ' ')
+  DW=$(timeout 300 cargo run --offline --features "executor block_on signals stream futures-io" --example seed_demo >/tmp/evalseed_demo${EVAL_LANE:-}.txt 2>&1; echo "exit=$?"; tail -2 /tmp/evalseed_demo${EVAL_LANE:-}.txt | tr '\n' ' ')
   echo "demo (example) WITH change: $DW" | tee -a "$LOG"
   git apply -R "$DEST/patch.diff"
-  DO=$(timeout 300 cargo run --offline --features "executor block_on signals stream futures-io" --example seed_demo >/tmp/evalseed_demo.txt 2>&1; echo "exit=$?"; tail -2 /tmp/evalseed_demo.txt | tr '\n' ' ')
+  DO=$(timeout 300 cargo run --offline --features "executor block_on signals stream futures-io" --example seed_demo >/tmp/evalseed_demo${EVAL_LANE:-}.txt 2>&1; echo "exit=$?"; tail -2 /tmp/evalseed_demo${EVAL_LANE:-}.txt | tr '\n' ' ')
   echo "demo (example) WITHOUT change: $DO" | tee -a "$LOG"
 elif [ -f "$DEST/demo.rs" ]; then
   cp "$DEST/demo.rs" tests/seed_demo.rs
@@ -50,7 +50,7 @@ if [ "${ISOLATED:-1}" = "1" ]; then
   sed -i "s#path = \"/repo\"#path = \"$S/repo\"#" $S/verif/harness/Cargo.toml
   for p in "$@"; do
     t0=$(date +%s.%N)
-    out=$(cd $S/verif && VERIF_DIR=$S/verif CARGO_TARGET_DIR=/tmp/evalseed_iso_target flock /tmp/evalseed_iso.lock bin/check $p quick 2>&1); code=$?
+    out=$(cd $S/verif && VERIF_DIR=$S/verif CARGO_TARGET_DIR=/tmp/evalseed_iso_target${EVAL_LANE:-} flock /tmp/evalseed_iso${EVAL_LANE:-}.lock bin/check $p quick 2>&1); code=$?
     t1=$(date +%s.%N)
     rule=$(echo "$out" | grep -o "rule=[A-Za-z0-9_.]* sig=[^ ]*" | head -1)
     printf "DETECT %-28s %s exit=%d %s (%.1fs, isolated copy)\n" "$NAME" "$p" "$code" "$rule" "$(echo "$t1 - $t0" | bc)" | tee -a "$LOG"
